@@ -345,6 +345,34 @@ func codecArgs(a []string) (reflect.Type, []string) {
 }
 
 // encodeSequence writes n records of one type through a single Encoder
+func marshalRecordA() string {
+	type record struct {
+		Name  string
+		Count int
+	}
+	var b bytes.Buffer
+	if err := control.Marshal(&b, &record{Name: "a", Count: 3}); err != nil {
+		return "error: " + err.Error()
+	}
+	return b.String()
+}
+
+func marshalRecordB() string {
+	type record struct {
+		Title string
+		Tags  []string
+		Extra string `control:"X-Extra"`
+		Dep   dependency.Dependency `control:"Depends"`
+	}
+	d, _ := dependency.Parse("foo (>= 1)")
+	var b bytes.Buffer
+	defer func() { recover() }()
+	if err := control.Marshal(&b, &record{Title: "t", Tags: []string{"p", "q"}, Extra: "e", Dep: *d}); err != nil {
+		return "error: " + err.Error()
+	}
+	return b.String()
+}
+
 // failingWriter: mode 0 fails at once, mode 1 accepts half of the first write and then
 // fails, mode 2 accepts the first write and fails from the second on
 type failingWriter struct{ mode, calls int }
@@ -587,6 +615,25 @@ var codecImpl = map[string]core.Adapter{
 	},
 	// law: paragraphs written one after another through the encoder read back as the same
 	// number of paragraphs (structs that write no field at all contribute none)
+	// law: what a struct marshals to depends on its type, not on the type's name: two different
+	// struct types that are both called `record` (declared inside two functions), marshalled in
+	// turn, also after the other one was seen first
+	"law-codecnames": func(a []string) string {
+		for round := 0; round < 2; round++ {
+			for _, first := range []bool{true, false} {
+				x, y := "", ""
+				if first {
+					x, y = marshalRecordA(), marshalRecordB()
+				} else {
+					y, x = marshalRecordB(), marshalRecordA()
+				}
+				if x != "Name: a\nCount: 3\n" || y != "Title: t\nTags: p q\nX-Extra: e\nDepends: foo (>= 1)\n" {
+					return fmt.Sprintf("FAIL two struct types of the same name marshal to %q and %q", x, y)
+				}
+			}
+		}
+		return "ok"
+	},
 	// law: values the walkers cannot handle (not a pointer, not a struct, nil) give an error, not a panic
 	"law-codecmisuse": func(a []string) string {
 		var verdict string
@@ -985,6 +1032,8 @@ func streamCodec(g *core.G) {
 	}
 	{
 		o, a := codecOp("law-codecmisuse", "ProbeBasic")
+		g.Emit(o, a...)
+		o, a = codecOp("law-codecnames", "ProbeBasic")
 		g.Emit(o, a...)
 	}
 	// unsupported kinds: an error from both walkers, never a panic
